@@ -144,4 +144,6 @@ def family_for(prop):
     f = dict(FAMILY)
     f["mc"] = MC[prop]
     f["witness"] = WITNESS.get(prop, {})
+    # the thorough exhaustive configurations take 3-13 min each on an otherwise idle 16-core machine
+    f["mc_timeout"] = dict(quick=900, thorough=3600)
     return f
